@@ -22,16 +22,36 @@ pub enum TOp {
 pub struct TablePlan {
     pub capacity: usize,
     pub ops: Vec<TOp>,
+    /// bulk run: fill a table of `capacity` with capacity + big_extra distinct keys (capacities far
+    /// beyond what the operation-by-operation model can follow, e.g. 2^24 where f32 stops counting)
+    #[serde(default)]
+    pub big_extra: u64,
 }
 
 pub fn gen_table_plan(seed: u64, thorough: bool) -> TablePlan {
     let mut rng = Rng::new(seed);
+    let _ = thorough;
+    if seed % 100_000 == 3 {
+        // about 650 MB and 1 s each: a handful of runs in the quick tier, about a hundred in the thorough tier
+        return TablePlan { capacity: (1 << 24) + rng.usize_below(3), ops: vec![], big_extra: 1 + rng.below(4) };
+    }
     let capacity = *rng.pick(&[1usize, 1, 2, 2, 3, 4, 5, 8, 16]);
     let universe = *rng.pick(&[2u64, 3, 5, 8, 13, 40]);
     let n = rng.range(10, if thorough { 400 } else { 120 }) as usize;
     // keys: small universe, sometimes spread over the 64-bit range (the table uses an identity hasher)
     let spread = rng.chance(1, 3);
-    let key = |k: u64| if spread { k.wrapping_mul(0x9E37_79B9_7F4A_7C15) ^ (k << 60) } else { k };
+    // sometimes the extreme hash values are in play (0, MAX, MAX-1, 2^63, 2^63-1): whatever a table
+    // uses as "empty" or "free" marker must not be confused with a stored key
+    let extremes = rng.chance(1, 3);
+    let key = |k: u64| {
+        if extremes && k < 5 {
+            [u64::MAX, 0, u64::MAX - 1, 1 << 63, (1 << 63) - 1][k as usize]
+        } else if spread {
+            k.wrapping_mul(0x9E37_79B9_7F4A_7C15) ^ (k << 60)
+        } else {
+            k
+        }
+    };
     let clear_w = *rng.pick(&[0u32, 1, 3]);
     let mut next_value = 1u64;
     let mut ops = Vec::with_capacity(n);
@@ -46,7 +66,7 @@ pub fn gen_table_plan(seed: u64, thorough: bool) -> TablePlan {
             _ => ops.push(TOp::Len),
         }
     }
-    TablePlan { capacity, ops }
+    TablePlan { capacity, ops, big_extra: 0 }
 }
 
 pub fn exec_table_plan(plan: &TablePlan) -> RunResult {
@@ -65,7 +85,45 @@ pub fn exec_table_plan(plan: &TablePlan) -> RunResult {
     res
 }
 
+fn run_big(plan: &TablePlan, res: &mut RunResult, log: &mut Fnv) -> Result<(), Violation> {
+    let cap = plan.capacity.max(1);
+    let mut t = TableHandle::new(cap);
+    let n = cap as u64 + plan.big_extra;
+    let k0 = 0x1000_0000_0000u64;
+    for i in 0..n {
+        t.put(k0 + i, i);
+        if i + 1 == cap as u64 && t.len() != cap {
+            return Err(Violation::new("C18", "size_mismatch", format!("capacity {}: after {} distinct keys len() = {}", cap, cap, t.len())));
+        }
+    }
+    res.steps = n;
+    res.bump("probe.bulk_fill_beyond_2_pow_24");
+    res.add("probe.eviction", plan.big_extra);
+    log.write_u64(t.len() as u64);
+    if t.len() != cap {
+        return Err(Violation::new("C18", "capacity_exceeded", format!("capacity {}: after {} distinct keys the table holds {} entries", cap, n, t.len())).with("over_capacity", json!(t.len() > cap)));
+    }
+    for i in 0..plan.big_extra {
+        if let Some(v) = t.get(k0 + i) {
+            return Err(Violation::new("C18", "evicted_key_still_present", format!("capacity {}: key #{} of {} is still present (value {})", cap, i, n, v)));
+        }
+    }
+    for i in [plan.big_extra, plan.big_extra + 1, n / 2, n - 2, n - 1] {
+        if t.get(k0 + i) != Some(i) {
+            return Err(Violation::new("C18", "lookup_mismatch", format!("capacity {}: get(key #{}) = {:?} expected Some({})", cap, i, t.get(k0 + i), i)));
+        }
+    }
+    if (t.load_factor() - 1.0).abs() > 1e-6 {
+        return Err(Violation::new("C18", "fill_level_mismatch", format!("capacity {}: full table reports load_factor() = {}", cap, t.load_factor())));
+    }
+    Ok(())
+}
+
 fn run_table(plan: &TablePlan, res: &mut RunResult, log: &mut Fnv, shape: &mut Fnv) -> Result<(), Violation> {
+    if plan.big_extra > 0 {
+        shape.write_u64(plan.capacity as u64);
+        return run_big(plan, res, log);
+    }
     let cap = plan.capacity.max(1);
     let mut t = TableHandle::new(cap);
     // reference: insertion-ordered vector of (key, value); re-inserting a present key keeps its age
